@@ -3,6 +3,7 @@ package rules
 import (
 	"fmt"
 	"go/types"
+	"regexp"
 	"sort"
 	"strings"
 
@@ -74,13 +75,29 @@ func fieldRoles(r *Run) map[string]string {
 			if f == nil {
 				continue
 			}
-			core.Instrs(f, func(in ssa.Instruction) {
-				if c, ok := in.(ssa.CallInstruction); ok && strings.HasPrefix(core.CalleeID(c), "(*sync/atomic.") && strings.HasSuffix(core.CalleeID(c), ".Load") && len(c.Common().Args) == 1 {
-					if a := core.Addr(c.Common().Args[0]); a.Field != "" {
-						out[a.Field] = role
+			// the atomic load may sit in the accessor itself or in a small typed cell's getter it calls
+			var scan func(g *ssa.Function, depth int)
+			scan = func(g *ssa.Function, depth int) {
+				core.Instrs(g, func(in ssa.Instruction) {
+					c, ok := in.(ssa.CallInstruction)
+					if !ok {
+						return
 					}
-				}
-			})
+					if strings.HasPrefix(core.CalleeID(c), "(*sync/atomic.") && strings.HasSuffix(core.CalleeID(c), ".Load") && len(c.Common().Args) == 1 {
+						if a := core.Addr(c.Common().Args[0]); a.Field != "" {
+							out[a.Field] = role
+						}
+						return
+					}
+					if cal := core.Callee(c); cal != nil && cal.Pkg == r.P.Cache && cal.Blocks != nil && depth < 2 {
+						if o := cal.Origin(); o != nil {
+							cal = o
+						}
+						scan(cal, depth+1)
+					}
+				})
+			}
+			scan(f, 0)
 		}
 	}
 	return out
@@ -594,6 +611,7 @@ func expandUntested(t map[string][]string) map[string][]string {
 		sort.Strings(l)
 		out[k] = l
 	}
+	t = collapseIrrelevantAtoms(t)
 	for k, os := range t {
 		head, rest := k, ""
 		if i := strings.Index(k, " "); i >= 0 {
@@ -656,4 +674,83 @@ func DumpTables(r *Run, twin int) {
 		}
 		fmt.Println("},")
 	}
+}
+
+// collapseIrrelevantAtoms: a row key carries, besides the key state, boolean atoms the path happened to test
+// (cbnil=, nilarg=, user=). When the two rows that differ only in one such atom have the same outcomes, the atom does
+// not matter there and both rows stand for the row without it - so testing the callback for nil earlier or later
+// (a getter with a nil guard, a test hoisted out of a branch) is not a table change.
+var aloadCallbackRe = regexp.MustCompile(`aload:evictedCallback`)
+
+func collapseIrrelevantAtoms(t map[string][]string) map[string][]string {
+	out := map[string][]string{}
+	for k, v := range t {
+		out[k] = v
+	}
+	for changed := true; changed; {
+		changed = false
+		var keys []string
+		for k := range out {
+			keys = append(keys, k)
+		}
+		sort.Strings(keys)
+		for _, k := range keys {
+			if _, still := out[k]; !still {
+				continue
+			}
+			toks := strings.Split(k, " ")
+			for i, tok := range toks {
+				if !strings.HasSuffix(tok, "=true") {
+					continue
+				}
+				name := strings.TrimSuffix(tok, "=true")
+				if !(strings.HasPrefix(name, "cbnil") || strings.HasPrefix(name, "nilarg")) {
+					continue
+				}
+				other := append([]string{}, toks...)
+				other[i] = name + "=false"
+				ko := strings.Join(other, " ")
+				vo, ok := out[ko]
+				if !ok {
+					continue
+				}
+				same := strings.Join(vo, " | ") == strings.Join(out[k], " | ")
+				if !same && strings.HasPrefix(name, "cbnil") {
+					// on the 'callback is nil' row the loaded callback *is* nil: the general row with the callback replaced
+					// by nil must give the nil row
+					var sub []string
+					for _, o := range vo {
+						sub = append(sub, aloadCallbackRe.ReplaceAllString(o, "zero"))
+					}
+					sort.Strings(sub)
+					tr := append([]string{}, out[k]...)
+					sort.Strings(tr)
+					same = strings.Join(sub, " | ") == strings.Join(tr, " | ")
+				}
+				if !same {
+					continue
+				}
+				base := append(append([]string{}, toks[:i]...), toks[i+1:]...)
+				kb := strings.Join(base, " ")
+				merged := map[string]bool{}
+				for _, o := range out[kb] {
+					merged[o] = true
+				}
+				for _, o := range vo {
+					merged[o] = true
+				}
+				var l []string
+				for o := range merged {
+					l = append(l, o)
+				}
+				sort.Strings(l)
+				delete(out, k)
+				delete(out, ko)
+				out[kb] = l
+				changed = true
+				break
+			}
+		}
+	}
+	return out
 }
